@@ -18,6 +18,16 @@
                                transitions whose condition outcome is a constant; reflexive transitions exit
                                and enter, internal transitions (dest None) do neither; the initial state is
                                assigned, not entered (no timer); queued machines answer True.
+     re-entrancy             : on_enter / on_exit callbacks may trigger an event on their model.  Unqueued
+                               machines process it at once, INSIDE the running transition (explicit fuel: Python
+                               would end in RecursionError); queued machines append it to the queue, answer True
+                               and process it when the running trigger (and everything queued before) is done; an
+                               exception while draining clears the queue and reaches the outermost caller.
+                               asyncio gathers every callback list: all callbacks of a list are started (logged)
+                               before the event one of them triggers proceeds.
+   Markers: TExited / TEntered are emitted where the model's state ATTRIBUTE changes (Machine.set_state,
+   between the exit and the enter callbacks) — the harness observes them through a property, without adding
+   callbacks (so callback lists can be empty and the asyncio loop is not given extra turns).
    A timer object is an entry of [w_timers] (identity = position, creation order); [w_runner] is the
    dictionary  state -> id(model) -> timer.  What is ASSUMED (not modelled): threading.Timer / asyncio.sleep
    call their function at the deadline — here: [tick] advances the clock by one and runs the pending timers
@@ -35,11 +45,14 @@ Definition tmodel := nat.
    model), and whether it raises afterwards *)
 Record ocb : Type := mkOcb { oc_id : tcb; oc_act : option (option tmodel * tevent); oc_raise : bool }.
 
+(* an on_enter / on_exit callback: its id and the event it triggers on its own model *)
+Record ecb : Type := mkEcb { ec_id : tcb; ec_act : option tevent }.
+
 Record tsdef : Type := mkTS {
   ts_timeout : nat;              (* timeout= (0 = none) *)
   ts_on_timeout : list ocb;      (* on_timeout= *)
-  ts_enter : list tcb;           (* on_enter= *)
-  ts_exit : list tcb             (* on_exit= *)
+  ts_enter : list ecb;           (* on_enter= *)
+  ts_exit : list ecb             (* on_exit= *)
 }.
 Definition ts_default : tsdef := mkTS 0 [] [] [].
 
@@ -112,48 +125,48 @@ Definition finish (t : timer) : timer :=
 Definition set_timers (w : world) (l : list timer) : world := mkW (w_clock w) (w_st w) l (w_runner w).
 
 (* ----------------------------------------------------------------- observations *)
-Inductive tres : Type := RFalse | RTrue | RMachine | RAttribute.
+Inductive tres : Type := RFalse | RTrue | RMachine | RAttribute | ROut.   (* ROut: out of fuel *)
 
 Inductive titem : Type :=
-| TExited (m : tmodel) (s : tstate) (t : nat)        (* marker: first on_exit callback of s *)
-| TEntered (m : tmodel) (s : tstate) (t : nat)       (* marker: first on_enter callback of s *)
+| TExited (m : tmodel) (s : tstate) (t : nat)        (* marker: the state attribute of m stops being s *)
+| TEntered (m : tmodel) (s : tstate) (t : nat)       (* marker: the state attribute of m becomes s *)
 | TFired (m : tmodel) (s : tstate) (t : nat)         (* marker: first on_timeout callback of s *)
 | CExit (cb : tcb) (m : tmodel) (seen : tstate) (t : nat)
 | CEnter (cb : tcb) (m : tmodel) (seen : tstate) (t : nat)
 | CTimeout (cb : tcb) (m : tmodel) (seen : tstate) (t : nat)
 | COnExc (cb : tcb) (m : tmodel) (err : nat) (t : nat)   (* on_exception; err = raising callback, 0 = MachineError *)
 | CEscape (cb : tcb) (m : tmodel) (t : nat)          (* threads: the exception of cb left the timer thread *)
-| CRes (m : tmodel) (e : tevent) (r : tres) (t : nat)    (* result of an event triggered by a timeout callback *)
+| CRes (m : tmodel) (e : tevent) (r : tres) (t : nat)    (* result of an event triggered by a callback *)
 | TUser (m : tmodel) (e : tevent) (t : nat).         (* the caller issues model.trigger(e) *)
 
-(* ----------------------------------------------------------------- exit / enter with the feature *)
-Definition do_exit (c : tcfg) (w : world) (m : tmodel) : list titem * world :=
-  let s := w_st w m in
-  let l := match w_runner w s m with
-           | Some i => upd_nth (w_timers w) i cancel_if_alive
-           | None => w_timers w
-           end in
-  (TExited m s (w_clock w) :: map (fun cb => CExit cb m s (w_clock w)) (ts_exit (sdef c s)),
-   set_timers w l).
+(* ----------------------------------------------------------------- the timer bookkeeping of a state change *)
+(* Timeout.exit, before the callbacks: cancel the timer registered for m in s if it is alive *)
+Definition cancel_slot (w : world) (s : tstate) (m : tmodel) : world :=
+  match w_runner w s m with
+  | Some i => set_timers w (upd_nth (w_timers w) i cancel_if_alive)
+  | None => w
+  end.
 
-(* the model's state attribute is already d *)
-Definition do_enter (c : tcfg) (w : world) (m : tmodel) (d : tstate) : list titem * world :=
-  let w1 := if Nat.ltb 0 (timeout_of c d)
-            then mkW (w_clock w) (w_st w)
-                     (w_timers w ++ [mkTimer d m (w_clock w + timeout_of c d) Pending])
-                     (upd2 (w_runner w) d m (Some (length (w_timers w))))
-            else w in
-  (TEntered m d (w_clock w) :: map (fun cb => CEnter cb m d (w_clock w)) (ts_enter (sdef c d)), w1).
+(* Machine.set_state (the attribute changes: markers), then Timeout.enter before the callbacks: start a
+   timer and OVERWRITE the runner entry of m *)
+Definition set_and_start (c : tcfg) (w : world) (m : tmodel) (d : tstate) : list titem * world :=
+  let st' := upd (w_st w) m d in
+  ([TExited m (w_st w m) (w_clock w); TEntered m d (w_clock w)],
+   if Nat.ltb 0 (timeout_of c d)
+   then mkW (w_clock w) st'
+            (w_timers w ++ [mkTimer d m (w_clock w + timeout_of c d) Pending])
+            (upd2 (w_runner w) d m (Some (length (w_timers w))))
+   else mkW (w_clock w) st' (w_timers w) (w_runner w)).
 
-Definition set_state (w : world) (m : tmodel) (d : tstate) : world :=
-  mkW (w_clock w) (upd (w_st w) m d) (w_timers w) (w_runner w).
+(* the state change without callbacks (what the local theorems speak about) *)
+Definition switch (c : tcfg) (w : world) (m : tmodel) (d : tstate) : list titem * world :=
+  set_and_start c (cancel_slot w (w_st w m) m) m d.
 
-Definition change_state (c : tcfg) (w : world) (m : tmodel) (d : tstate) : list titem * world :=
-  let '(ex, w1) := do_exit c w m in
-  let '(en, w2) := do_enter c (set_state w1 m d) m d in
-  (ex ++ en, w2).
+(* ----------------------------------------------------------------- triggers, re-entrant *)
+Definition queue := list (tmodel * tevent).
+(* model.trigger(e) as seen from a callback: items, world, queue, result *)
+Definition rec_t := world -> queue -> tmodel -> tevent -> list titem * world * queue * tres.
 
-(* ----------------------------------------------------------------- one trigger *)
 Definition event_known (c : tcfg) (e : tevent) : bool :=
   existsb (fun t => Nat.eqb (tt_event t) e) (tc_trans c).
 Definition cands (c : tcfg) (e : tevent) (s : tstate) : list ttrans :=
@@ -165,27 +178,115 @@ Fixpoint first_ok (l : list ttrans) : option ttrans :=
 Definition qres (c : tcfg) (r : tres) : tres :=
   if tc_queued c then match r with RFalse => RTrue | x => x end else r.
 
-Definition step (c : tcfg) (w : world) (m : tmodel) (e : tevent) : list titem * world * tres :=
+(* a trigger issued while a trigger is being processed *)
+Definition cbtrig (rec : rec_t) (c : tcfg) : rec_t := fun w q m e =>
+  if tc_queued c
+  then if event_known c e then ([], w, q ++ [(m, e)], RTrue)
+       else ([], w, q, if tc_ignore c then RFalse else RAttribute)
+  else rec w q m e.
+
+Definition ecb_act (rec : rec_t) (c : tcfg) (w : world) (q : queue) (m : tmodel) (cb : ecb)
+  : list titem * world * queue :=
+  match ec_act cb with
+  | None => ([], w, q)
+  | Some e => let '(its, w', q', r) := cbtrig rec c w q m e in (its ++ [CRes m e r (w_clock w)], w', q')
+  end.
+
+Definition mk_t := tcb -> tmodel -> tstate -> nat -> titem.     (* CExit or CEnter *)
+
+(* threads: Machine.callbacks — one after the other *)
+Fixpoint run_cbs_sync (rec : rec_t) (c : tcfg) (mk : mk_t) (w : world) (q : queue) (m : tmodel)
+                      (cbs : list ecb) : list titem * world * queue :=
+  match cbs with
+  | [] => ([], w, q)
+  | cb :: r =>
+      let i0 := mk (ec_id cb) m (w_st w m) (w_clock w) in
+      let '(ia, w1, q1) := ecb_act rec c w q m cb in
+      let '(ir, w2, q2) := run_cbs_sync rec c mk w1 q1 m r in
+      (i0 :: ia ++ ir, w2, q2)
+  end.
+(* asyncio: gathered — all started, then the triggered events proceed *)
+Fixpoint run_acts (rec : rec_t) (c : tcfg) (w : world) (q : queue) (m : tmodel) (cbs : list ecb)
+  : list titem * world * queue :=
+  match cbs with
+  | [] => ([], w, q)
+  | cb :: r =>
+      let '(ia, w1, q1) := ecb_act rec c w q m cb in
+      let '(ir, w2, q2) := run_acts rec c w1 q1 m r in
+      (ia ++ ir, w2, q2)
+  end.
+Definition run_cbs (rec : rec_t) (c : tcfg) (mk : mk_t) (w : world) (q : queue) (m : tmodel)
+                   (cbs : list ecb) : list titem * world * queue :=
+  if tc_async c
+  then let '(ia, w1, q1) := run_acts rec c w q m cbs in
+       (map (fun cb => mk (ec_id cb) m (w_st w m) (w_clock w)) cbs ++ ia, w1, q1)
+  else run_cbs_sync rec c mk w q m cbs.
+
+(* Transition._change_state: source.exit, set_state, dest.enter — with the feature's enter / exit *)
+Definition change_state (rec : rec_t) (c : tcfg) (w : world) (q : queue) (m : tmodel) (d : tstate)
+  : list titem * world * queue :=
+  let s := w_st w m in
+  let '(ix, w1, q1) := run_cbs rec c CExit (cancel_slot w s m) q m (ts_exit (sdef c s)) in
+  let '(mk, w2) := set_and_start c w1 m d in
+  let '(ie, w3, q3) := run_cbs rec c CEnter w2 q1 m (ts_enter (sdef c d)) in
+  (ix ++ mk ++ ie, w3, q3).
+
+Definition step (rec : rec_t) (c : tcfg) : rec_t := fun w q m e =>
   if negb (event_known c e)
-  then ([], w, if tc_ignore c then RFalse else RAttribute)              (* Machine._get_trigger *)
+  then ([], w, q, if tc_ignore c then RFalse else RAttribute)           (* Machine._get_trigger *)
   else
     match cands c e (w_st w m) with
     | [] =>                                                             (* Event._is_valid_source *)
-        if tc_ignore c then ([], w, qres c RFalse)
+        if tc_ignore c then ([], w, q, qres c RFalse)
         else match tc_onexc c with
-             | [] => ([], w, RMachine)
-             | hs => (map (fun h => COnExc h m 0 (w_clock w)) hs, w, qres c RFalse)
+             | [] => ([], w, q, RMachine)
+             | hs => (map (fun h => COnExc h m 0 (w_clock w)) hs, w, q, qres c RFalse)
              end
     | l =>
         match first_ok l with
-        | None => ([], w, qres c RFalse)                                (* every condition failed *)
+        | None => ([], w, q, qres c RFalse)                             (* every condition failed *)
         | Some t =>
             match tt_dst t with
-            | None => ([], w, RTrue)                                    (* internal transition *)
-            | Some d => let '(its, w') := change_state c w m d in (its, w', RTrue)
+            | None => ([], w, q, RTrue)                                 (* internal transition *)
+            | Some d => let '(its, w', q') := change_state rec c w q m d in (its, w', q', RTrue)
             end
         end
     end.
+
+(* unqueued: a callback's trigger is processed inside the running one; depth bounded by the fuel *)
+Fixpoint trig (fuel : nat) (c : tcfg) : rec_t :=
+  match fuel with
+  | 0 => fun w q m e => ([], w, q, ROut)
+  | S f => step (trig f c) c
+  end.
+
+Definition is_exn (r : tres) : bool := match r with RMachine | RAttribute | ROut => true | _ => false end.
+
+(* queued: Machine._process drains the queue; an exception clears it and is the caller's result *)
+Fixpoint drain (fuel : nat) (c : tcfg) (w : world) (q : queue) : list titem * world * option tres :=
+  match fuel with
+  | 0 => ([], w, Some ROut)
+  | S f =>
+      match q with
+      | [] => ([], w, None)
+      | (m, e) :: q0 =>
+          let '(its, w1, q1, r) := step (trig 0 c) c w q0 m e in
+          if is_exn r then (its, w1, Some r)
+          else let '(its2, w2, x) := drain f c w1 q1 in (its ++ its2, w2, x)
+      end
+  end.
+
+Definition FUEL := 8.
+Definition DRAIN_FUEL := 40.
+
+(* model.trigger(e) by the caller or by a timeout callback: no trigger is being processed *)
+Definition top_trig (c : tcfg) (w : world) (m : tmodel) (e : tevent) : list titem * world * tres :=
+  if tc_queued c
+  then let '(its, w1, q1, r) := step (trig 0 c) c w [] m e in
+       if is_exn r then (its, w1, r)
+       else let '(its2, w2, x) := drain DRAIN_FUEL c w1 q1 in
+            (its ++ its2, w2, match x with Some r' => r' | None => r end)
+  else let '(its, w1, _, r) := trig FUEL c w [] m e in (its, w1, r).
 
 (* ----------------------------------------------------------------- the timeout handler *)
 Definition do_act (c : tcfg) (w : world) (m : tmodel) (cb : ocb) : list titem * world :=
@@ -193,7 +294,7 @@ Definition do_act (c : tcfg) (w : world) (m : tmodel) (cb : ocb) : list titem * 
   | None => ([], w)
   | Some (who, e) =>
       let tm := match who with None => m | Some k => k end in
-      let '(its, w', r) := step c w tm e in
+      let '(its, w', r) := top_trig c w tm e in
       (its ++ [CRes tm e r (w_clock w)], w')
   end.
 
@@ -208,9 +309,9 @@ Fixpoint handler_sync (c : tcfg) (w : world) (m : tmodel) (cbs : list ocb) : lis
       else let '(ir, w2) := handler_sync c w1 m r in (i0 :: ia ++ ir, w2)
   end.
 
-(* asyncio: asyncio.gather starts every callback before any of them proceeds past its first suspension
-   (the first callback list of the transition it triggers); then the triggered events run; the first
-   exception (in callback order) goes to the machine's on_exception callbacks *)
+(* asyncio: asyncio.gather starts every callback before any of them proceeds past its first suspension;
+   then the triggered events run; the first exception (in callback order) goes to the machine's
+   on_exception callbacks *)
 Fixpoint acts_async (c : tcfg) (w : world) (m : tmodel) (cbs : list ocb) : list titem * world :=
   match cbs with
   | [] => ([], w)
@@ -270,7 +371,7 @@ Inductive top : Type := HEvent (m : tmodel) (e : tevent) | HAdvance (dt : nat).
 (* one operation of the history: items, result of the call (events only), world *)
 Definition do_op (c : tcfg) (w : world) (o : top) : list titem * option tres * world :=
   match o with
-  | HEvent m e => let '(its, w', r) := step c w m e in (TUser m e (w_clock w) :: its, Some r, w')
+  | HEvent m e => let '(its, w', r) := top_trig c w m e in (TUser m e (w_clock w) :: its, Some r, w')
   | HAdvance dt => let '(its, w') := advance c w dt in (its, None, w')
   end.
 
